@@ -569,6 +569,15 @@ def run_job(job, acc):
         _, procs, n_ticks, par, stop = job
         spec, names = sched_world(procs, n_ticks)
         tag = f'sched:{stop[0]}'
+    elif kind == 'profile':
+        # Engine(profile=True): the worker hands its profile to the parent
+        # when it is stopped - also when the profile is far larger than a
+        # pipe buffer (a process that called thousands of functions)
+        _, n_funcs, par, stop = job
+        spec, names = sched_world(((1, 'always'), (2, 'always')), 2)
+        spec['engine'] = dict(spec.get('engine') or {}, profile=True)
+        spec['processes']['p1']['call_functions'] = n_funcs
+        tag = f'profile:{stop[0]}'
     elif kind == 'steps':
         _, n_ticks, par, stop = job
         spec, names = steps_world(n_ticks)
@@ -662,6 +671,13 @@ def jobs(ctx):
     for par in subsets(['p', 'w', 'd', 'z0']):
         for stop in [('full',), ('end', 1), ('drop', 1)]:
             out.append(('steps', n_ticks, par, stop))
+    for n_funcs in (50, 6000):
+        for par in (('p1',), ('p0', 'p1')):
+            # (no 'drop' stop here: an engine that is dropped without
+            # end() leaves THIS process's profiler switched on, and the
+            # next engine with profile=True cannot be built)
+            for stop in [('full',), ('end', 1), ('end2', 2)]:
+                out.append(('profile', n_funcs, par, stop))
     ops = [('del', 'X', 'a'), ('div', 'X', 'a'), ('mov', 'X', 'a'),
            ('gen', 'X', 'c'), ('add', 'X', 'c'), ('divcopy', 'X', 'a')]
     for op in ops:
@@ -733,3 +749,6 @@ def replay(case):
 
 RULE += (
     ' Process p0 of the schedule worlds carries a _schema override; genstep worlds: a generated parallel step with private state whose compartment is moved later; values worlds: every pair of empty-shaped update values through the pipe.')
+
+RULE += (
+    ' Profile family: Engine(profile=True) with a parallel process that called 50 / 6000 distinct functions (a profile far larger than a pipe buffer): every stop point returns and every worker is reaped.')
